@@ -310,7 +310,7 @@ impl BuildStates {
                 build.location,
                 // Unnamed pool lookups always succeed, this error is about
                 // named pools.
-                build.pool.as_ref().unwrap()
+                String::from_utf8_lossy(build.pool.as_ref().unwrap().as_bytes())
             )
         })?;
         pool.queued.push_back(id);
